@@ -58,6 +58,7 @@ def run(chk: Check) -> None:
     run_instance_asserts_after_subtype(chk, ix)
     run_format_replacement_lookups(chk, ix)
     run_progress_reads_what_was_written(chk, ix)
+    run_literal_strings_encodable(chk, ix)
 
     r1 = chk.rule("R20.1", "every loop that re-queues deferred work has a per-iteration counter compared with a constant bound that exits the loop; type-checker deferral is limited by pass_num < last_pass", floor=7)
     n_loops = 0
@@ -784,3 +785,28 @@ def run_progress_reads_what_was_written(chk: Check, ix) -> None:
             r.ok(key, f.loc(a), f"reads .{tail}; make_argument fills {sorted(filled)}")
         else:
             r.violation(key, f.loc(a), f"`{norm(a.value)[:90]}` reads `.{tail}`, but make_argument builds `{norm(call)}`: that attribute is never set (always None), so `updated` is always True and progress is forced on every iteration")
+
+
+def run_literal_strings_encodable(chk: Check, ix) -> None:
+    """R20.15: the value of a string literal in the checked program can be written to the binary cache."""
+    r = chk.rule("R20.15", "a LiteralType / Final value is a Python str taken from the source, and a Python str may hold lone surrogates (`\"\\ud800\"`); the binary cache writes it with the native UTF-8 writer (cache.write_literal -> write_str_bare), which raises UnicodeEncodeError for such a value. Either write_literal's str branch encodes it in a way that cannot fail (surrogatepass / an escaped form), or the serialization step of build.write_cache handles the exception (the module is simply not cached); otherwise a valid program ends in INTERNAL ERROR with the default cache format while the JSON format accepts it", floor=1)
+    wl = ix.func("mypy.cache.write_literal")
+    branch = None
+    for i in ast.walk(wl.node):
+        if isinstance(i, ast.If) and "isinstance(value, str)" in norm(i.test):
+            branch = i
+    if branch is None:
+        raise AnalysisError("cache.write_literal: the str branch was not found")
+    safe_encode = any(isinstance(c, ast.Call) and isinstance(c.func, ast.Attribute) and c.func.attr == "encode" and any(isinstance(a, ast.Constant) and a.value in ("surrogatepass", "surrogateescape", "backslashreplace") for a in list(c.args) + [k.value for k in c.keywords]) for s in branch.body for c in ast.walk(s))
+    wc = ix.func("mypy.build.write_cache")
+    handled = False
+    for t in ast.walk(wc.node):
+        if isinstance(t, ast.Try) and any(isinstance(c, ast.Call) and isinstance(c.func, ast.Attribute) and c.func.attr == "write" and norm(c.func.value) == "tree" for s in t.body for c in ast.walk(s)):
+            for h in t.handlers:
+                if h.type is None or any(n in norm(h.type) for n in ("UnicodeEncodeError", "UnicodeError", "ValueError", "Exception")):
+                    handled = True
+    key = "a str literal with lone surrogates can be written to the binary cache (or the failure is handled)"
+    if safe_encode or handled:
+        r.ok(key, wl.loc(branch))
+    else:
+        r.violation(key, wl.loc(branch), "the str branch hands the value to the strict UTF-8 writer and write_cache has no handler around `tree.write(...)`: `S: Final = \"\\ud800\"` ends in INTERNAL ERROR (UnicodeEncodeError) when the module's cache is written; with --no-fixed-format-cache (JSON) the same program is accepted")
